@@ -1863,6 +1863,7 @@ def check_C19(ctx):
 
 def check_C11(ctx):
     build()
+    run_known_scripts(ctx)
     # design: a crash inside any critical section of the page-ownership model, recovery = rebuild from the durable commit
     tlc_check(ctx, "PagerCrash", "MC_PagerCrash.cfg", workers=8, timeout=3600)
     tlc_expect_violation(ctx, "PagerCrash", "MC_PagerCrash_bad.cfg", "Owner1", workers=4)
@@ -1901,8 +1902,27 @@ def check_C11(ctx):
                      "outcomes + reopen/integrity events")
 
 
+def run_known_scripts(ctx):
+    """Deterministic reproductions of the listed findings of this property (/verif/known/<ID>_<signature>.json: a script for `kv`):
+    each is run and judged by KvTrace; the deviation is named in the specification and reported through a KNOWN marker, so the
+    check prints its KNOWN-FINDING line on every run of the unchanged tree - and stops printing it once the code no longer deviates"""
+    d = os.path.join(ROOT, "known")
+    for f in sorted(os.listdir(d)) if os.path.isdir(d) else []:
+        if not f.startswith(ctx.prop + "_"):
+            continue
+        trace = os.path.join(ctx.work, f"known-{f[:-5]}.ndjson")
+        p = sh([bin_path("kv"), "--script", os.path.join(d, f), "--out", trace], timeout=900, check=False)
+        if p.returncode != 0:
+            raise ToolError(f"known-finding script {f} failed to run: {p.stderr[-800:]}")
+        ok, info = tlc_trace(ctx, "KvTrace", trace, tag="-known")
+        ctx.cov["evaluations"] += sum(1 for _ in open(trace))
+        if not ok:
+            raise kv_violation(ctx, trace, info)
+
+
 def check_C13(ctx):
     build()
+    run_known_scripts(ctx)
     # design: compact() as an algorithm on page positions, every forest shape and placement: terminates, no two pages on one
     # position, not longer at the end, no hole; a single pass may extend the file (documented as an expected violation)
     tlc_check(ctx, "Compact", tiered(ctx, "MC_Compact.cfg", "MC_Compact_large.cfg"), workers=6, timeout=3000)
@@ -2028,7 +2048,10 @@ def main(argv):
         path = write_evidence(ctx, res["level"], res["rule"], explanation=res.get("explanation"), exhaustive=res.get("exhaustive", False),
                               checker_cmd=f"./check {prop} --tier {tier}")
         for k in ctx.known_hits:
-            print(f"KNOWN-FINDING: {k}")
+            # (a history of this check may run into a listed deviation that belongs to another property - e.g. a compact() step
+            # in a crash history: that is the other check's finding to report; here it is only noted in the evidence)
+            if k.startswith(f"property={prop} "):
+                print(f"KNOWN-FINDING: {k}")
         log(f"{prop} ok; evidence {path}; {time.time() - ctx.t0:.0f}s")
         return 0
     except Violation as v:
